@@ -252,10 +252,13 @@ theorem removeModule_safe {cfg : Cfg} (ok : CfgOK cfg) {fwd : Fwd} {n : Nat} (hs
   unfold removeModule
   simp only [hm]
   obtain ⟨h3, hl3, hout3, hsub3, hcl3⟩ := removePrep_good h u m hm hc
-  have h4 := hs (removePrep s u m) (closedFrame cfg { m with connected := false }) h3
+  obtain ⟨g3l, st3l⟩ := logAt_safe ok hs 10 h3 (by omega)
+  have hl3l := st3l.live
+  have h4 := hs (logAt cfg fwd 10 (removePrep s u m)) (closedFrame cfg { m with connected := false }) g3l
     (by rw [need_closed cfg ok]; omega)
-  generalize fwd (removePrep s u m) (closedFrame cfg { m with connected := false }) = s4 at h4
-  obtain ⟨g4, st4⟩ := h4
+  generalize fwd (logAt cfg fwd 10 (removePrep s u m)) (closedFrame cfg { m with connected := false }) = s4 at h4
+  obtain ⟨g4, st4'⟩ := h4
+  have st4 : Step (removePrep s u m) s4 := st3l.trans st4'
   have hfind5 : ∀ v, v ≠ u → ({ s4 with mods := s4.mods.filter (·.uid != u) } : State).find v = s4.find v :=
     fun v hv => find_filter_ne _ _ _ hv
   have hfindu : ({ s4 with mods := s4.mods.filter (·.uid != u) } : State).find u = none := find_filter_eq _ _
@@ -480,6 +483,17 @@ theorem top_same {s : State} (h : Top cfg s) (s' : State) (hm : s'.mods = s.mods
   · rw [hf] at hu; rw [h.aopen u m hu] at c; cases c
   · rw [hf] at hu; exact h.aopen u m hu
 
+theorem top_clashLoop (me : Module) : ∀ (os : List Module) {s : State}, Top cfg s → Top cfg (clashLoop cfg me os s).1
+  | [], _, h => h
+  | o :: rest, s, h => by
+    unfold clashLoop
+    split
+    · exact h
+    · apply top_clashLoop me rest
+      split
+      · exact h
+      · exact top_log ok hfuel h 10
+
 theorem top_connect {s : State} (h : Top cfg s) (u : Nat) (hd : Hdr) : Top cfg (connectModule cfg s u hd).1 := by
   unfold connectModule
   dsimp only
@@ -495,9 +509,15 @@ theorem top_connect {s : State} (h : Top cfg s) (u : Nat) (hd : Hdr) : Top cfg (
       split
       · split
         · exact top_remove ok hfuel (top_log ok hfuel h1 40) u
-        · split
-          · exact top_remove ok hfuel (top_log ok hfuel h1 40) u
-          · exact top_same ok hfuel (top_upd ok hfuel h1 u (fun m => { m with connected := true })
+        · have hl := top_clashLoop ok hfuel (setAll cfg s.buf hd nm (lookupMod s u))
+            ((s.upd u (setAll cfg s.buf hd nm)).mods.filter (·.uid != u)) h1
+          generalize clashLoop cfg (setAll cfg s.buf hd nm (lookupMod s u))
+            ((s.upd u (setAll cfg s.buf hd nm)).mods.filter (·.uid != u)) (s.upd u (setAll cfg s.buf hd nm)) = r at hl
+          obtain ⟨s2, cl⟩ := r
+          dsimp only at hl ⊢
+          split
+          · exact top_remove ok hfuel (top_log ok hfuel hl 40) u
+          · exact top_same ok hfuel (top_upd ok hfuel hl u (fun m => { m with connected := true })
               (fun _ => rfl) (fun _ => rfl) (fun _ => rfl)) _ rfl rfl rfl
       · split
         · exact top_remove ok hfuel (top_log ok hfuel h1 40) u
@@ -507,10 +527,13 @@ theorem top_connect {s : State} (h : Top cfg s) (u : Nat) (hd : Hdr) : Top cfg (
           exact top_same ok hfuel (top_upd ok hfuel h2 u (fun m => { m with modId := id, connected := true })
             (fun _ => rfl) (fun _ => rfl) (fun _ => rfl)) _ rfl rfl rfl
 
+theorem top_infoOf {s : State} (h : Top cfg s) (m : Module) : Top cfg (infoOf cfg s m) := by
+  unfold infoOf; exact top_fwd ok hfuel (top_log ok hfuel h 10) _
+
 theorem top_sendInfo {s : State} (h : Top cfg s) (u : Nat) : Top cfg (sendInfo cfg s u) := by
   unfold sendInfo; split
   · exact h
-  · exact top_fwd ok hfuel h _
+  · exact top_infoOf ok hfuel h _
 
 omit ok hfuel in
 theorem closedmap_setSubs (s : State) (i : List (Int × List Nat)) (u v : Nat) (l : List Int) :
@@ -530,35 +553,47 @@ theorem allOpen_of_closedmap {s s' : State} (h : AllOpen s)
   | none => simp [h0] at this
   | some m0 => simp [h0] at this; rw [this]; exact h v m0 h0
 
-theorem top_addSub {s : State} (h : Top cfg s) (u : Nat) (t : Int) (m : Module) (hm : s.find u = some m) :
-    Top cfg (addSub cfg s u t) := by
-  have hinv := addSub_inv h.good.inv u t m hm
-  have hcm : ∀ v, ((addSub cfg s u t).find v).map (·.closed) = (s.find v).map (·.closed) := by
-    intro v; unfold addSub; dsimp only
+theorem top_addSubCore {s : State} (h : Top cfg s) (u : Nat) (t : Int) (m : Module) (hm : s.find u = some m) :
+    Top cfg (addSubCore cfg s u t) := by
+  have hinv := addSubCore_inv h.good.inv u t m hm
+  have hcm : ∀ v, ((addSubCore cfg s u t).find v).map (·.closed) = (s.find v).map (·.closed) := by
+    intro v; unfold addSubCore; dsimp only
     split
     · exact closedmap_setSubs s _ u v _
     · split
       · rfl
       · exact closedmap_setSubs s _ u v _
-  have hcr : (addSub cfg s u t).crashed = s.crashed := by
-    unfold addSub; dsimp only; split; rfl; split <;> rfl
+  have hcr : (addSubCore cfg s u t).crashed = s.crashed := by
+    unfold addSubCore; dsimp only; split; rfl; split <;> rfl
+  have ho := allOpen_of_closedmap h.aopen hcm
+  exact ⟨⟨hinv, fun v m' hv c => (by rw [ho v m' hv] at c; cases c), hcr.trans h.good.ok⟩, ho⟩
+
+theorem top_addSub {s : State} (h : Top cfg s) (u : Nat) (t : Int) (m : Module) (hm : s.find u = some m) :
+    Top cfg (addSub cfg s u t) := by
+  unfold addSub; split
+  · exact top_log ok hfuel (top_addSubCore ok hfuel h u t m hm) 10
+  · exact top_addSubCore ok hfuel h u t m hm
+
+theorem top_removeSubCore {s : State} (h : Top cfg s) (u : Nat) (t : Int) (m : Module) (hm : s.find u = some m) :
+    Top cfg (removeSubCore cfg s u t) := by
+  have hinv := removeSubCore_inv h.good.inv u t m hm
+  have hcm : ∀ v, ((removeSubCore cfg s u t).find v).map (·.closed) = (s.find v).map (·.closed) := by
+    intro v; unfold removeSubCore; dsimp only
+    split
+    · exact closedmap_setSubs s _ u v _
+    · split
+      · rfl
+      · exact closedmap_setSubs s _ u v _
+  have hcr : (removeSubCore cfg s u t).crashed = s.crashed := by
+    unfold removeSubCore; dsimp only; split; rfl; split <;> rfl
   have ho := allOpen_of_closedmap h.aopen hcm
   exact ⟨⟨hinv, fun v m' hv c => (by rw [ho v m' hv] at c; cases c), hcr.trans h.good.ok⟩, ho⟩
 
 theorem top_removeSub {s : State} (h : Top cfg s) (u : Nat) (t : Int) (m : Module) (hm : s.find u = some m) :
     Top cfg (removeSub cfg s u t) := by
-  have hinv := removeSub_inv h.good.inv u t m hm
-  have hcm : ∀ v, ((removeSub cfg s u t).find v).map (·.closed) = (s.find v).map (·.closed) := by
-    intro v; unfold removeSub; dsimp only
-    split
-    · exact closedmap_setSubs s _ u v _
-    · split
-      · rfl
-      · exact closedmap_setSubs s _ u v _
-  have hcr : (removeSub cfg s u t).crashed = s.crashed := by
-    unfold removeSub; dsimp only; split; rfl; split <;> rfl
-  have ho := allOpen_of_closedmap h.aopen hcm
-  exact ⟨⟨hinv, fun v m' hv c => (by rw [ho v m' hv] at c; cases c), hcr.trans h.good.ok⟩, ho⟩
+  unfold removeSub; split
+  · exact top_log ok hfuel (top_removeSubCore ok hfuel h u t m hm) 10
+  · exact top_removeSubCore ok hfuel h u t m hm
 
 theorem top_process {s : State} (h : Top cfg s) (u : Nat) (m : Module) (hm : s.find u = some m) (hd : Hdr) :
     Top cfg (processMessage cfg s u hd) := by
@@ -570,7 +605,7 @@ theorem top_process {s : State} (h : Top cfg s) (u : Nat) (m : Module) (hm : s.f
     obtain ⟨s1, okb⟩ := r
     simp only at hc ⊢
     split
-    · exact top_log ok hfuel (top_fwd ok hfuel (top_sendAck ok hfuel hc u) _) 20
+    · exact top_log ok hfuel (top_infoOf ok hfuel (top_sendAck ok hfuel hc u) _) 20
     · exact hc
   · split
     · exact top_log ok hfuel (top_remove ok hfuel h u) 20
@@ -584,12 +619,12 @@ theorem top_process {s : State} (h : Top cfg s) (u : Nat) (m : Module) (hm : s.f
           · split
             · exact top_remove ok hfuel (top_log ok hfuel h 40) u
             · rename_i nm _
-              exact top_sendInfo ok hfuel (top_log ok hfuel
-                (top_upd ok hfuel h u (fun m => { m with name := nm }) (fun _ => rfl) (fun _ => rfl) (fun _ => rfl)) 20) u
+              exact top_infoOf ok hfuel (top_log ok hfuel
+                (top_upd ok hfuel h u (fun m => { m with name := nm }) (fun _ => rfl) (fun _ => rfl) (fun _ => rfl)) 20) _
           · split
             · exact top_sendInfo ok hfuel (top_upd ok hfuel h u (fun m => { m with pid := bufI32 s.buf 0 })
                 (fun _ => rfl) (fun _ => rfl) (fun _ => rfl)) u
-            · exact top_fwd ok hfuel h _
+            · exact top_fwd ok hfuel (top_log ok hfuel h 10) _
 
 theorem top_readOne {s : State} (h : Top cfg s) (r : Read) : Top cfg (readOne cfg s r) := by
   unfold readOne
@@ -627,7 +662,7 @@ theorem top_foldl_fwd : ∀ (fs : List Frame) {s : State}, Top cfg s → Top cfg
 
 theorem top_infoAll : ∀ (ms : List Module) {s : State}, Top cfg s → Top cfg (infoAll cfg ms s)
   | [], _, h => h
-  | m :: rest, _, h => by unfold infoAll; exact top_infoAll rest (top_fwd ok hfuel h _)
+  | m :: rest, _, h => by unfold infoAll; exact top_infoAll rest (top_infoOf ok hfuel h _)
 
 theorem top_accept {s : State} (h : Top cfg s) : Top cfg (acceptStep cfg s) := by
   unfold acceptStep
@@ -685,16 +720,20 @@ theorem top_ticks {s : State} (h : Top cfg s) : Top cfg (ticks cfg s) := by
     split
     · unfold sendTraffic; dsimp only
       have a1 : Top cfg ({ s1 with inTraffic := true } : State) := top_same ok hfuel h1 _ rfl rfl rfl
-      have a2 := top_foldl_fwd ok hfuel (trafficFrames cfg s1.trafficSeq s1.traffic) a1
+      have a1' := top_log ok hfuel a1 10
+      generalize logAt cfg (fwdTop cfg) 10 ({ s1 with inTraffic := true } : State) = s1' at a1'
+      have a2 := top_foldl_fwd ok hfuel (trafficFrames cfg s1'.trafficSeq s1'.traffic) a1'
       exact top_same ok hfuel a2 _ rfl rfl rfl
     · exact h1
   generalize (if s1.now - s1.tTraffic > 1000 then sendTraffic cfg s1 else s1) = s2 at h2 ⊢
   split
   · unfold sendActive; dsimp only
-    have a1 := top_infoAll ok hfuel s2.mods h2
+    have a0 := top_log ok hfuel h2 10
+    generalize logAt cfg (fwdTop cfg) 10 s2 = s3 at a0
+    have a1 := top_infoAll ok hfuel s3.mods a0
     have a2 := top_fwd ok hfuel a1 (mgrFrame cfg.mtActive 0 cfg.szActive
-      (Body.active (((infoAll cfg s2.mods s2).mods.length : Int) - 1) (trimZeros ((s2.mods.take cfg.maxActive).map (·.modId)))
-        (trimZeros ((s2.mods.take cfg.maxActive).map (·.pid)))))
+      (Body.active (((infoAll cfg s3.mods s3).mods.length : Int) - 1) (trimZeros ((s3.mods.take cfg.maxActive).map (·.modId)))
+        (trimZeros ((s3.mods.take cfg.maxActive).map (·.pid)))))
     exact top_same ok hfuel a2 _ rfl rfl rfl
   · exact h2
 
